@@ -1,9 +1,11 @@
 from .base import Prop
-from .. import oracles
+from .. import oracles, gen
 
 
 class C20(Prop):
     pid = "C20"
+    quick = {"seeds": 4000, "wall_cap": 90, "chunk": 16}
+    thorough = {"seeds": 80000, "wall_cap": 1500, "chunk": 32}
     level = "fault_enumeration"
     rule = ("one case = one seeded history (1-4 ops from integrate(t)/set tol/reset) over every method family, with/without events (incl. terminal "
             "rollback), dense output, ordered callback lists (observer and dt-scheduler), and 0-2 faults (rhs raise / KeyboardInterrupt / spike, "
@@ -15,6 +17,18 @@ class C20(Prop):
 
     def monitors(self, scn):
         return [oracles.Counters("C20")]
+
+    def generate(self, seed, tier):
+        if seed % 16 != 3:
+            return [gen.gen_scenario(seed, "C20")]
+        # crash-point enumeration of a short history (the C12 generator), judged by the counter oracles
+        from .C12 import PROP as C12P
+        out = []
+        for scn in C12P.generate(seed, "quick"):
+            scn = dict(scn)
+            scn["profile"] = "C20"
+            out.append(scn)
+        return out[:80]
 
 
 PROP = C20()
